@@ -113,6 +113,7 @@ class Repo:
 
     # ------------------------------------------------------------------ load
     def _load(self) -> None:
+        parsed: Dict[str, tuple] = {}
         for fn in sorted(os.listdir(self.pkgdir)):
             if not fn.endswith(".py"):
                 continue
@@ -124,6 +125,16 @@ class Repo:
                 tree = ast.parse(src, filename=path)
             except SyntaxError as e:  # the tree does not compile
                 raise AnalysisError(f"syntax error in {path}: {e}")
+            parsed[fn] = (path, src, tree)
+        # functions moved between modules of the package are put back where the rules (and the inliner) look for them
+        from .rehome import rehome
+        from .tables import KNOWN_FUNCS as _KF
+        from . import alpha as _alpha
+        if any(not (os.path.isfile(os.path.join(_alpha.REF_DIR, fn)) and open(os.path.join(_alpha.REF_DIR, fn), encoding="utf-8").read() == src)
+               for fn, (_, src, _) in parsed.items()):
+            for k_, v_ in rehome({fn[:-3]: t for fn, (_, _, t) in parsed.items()}, _KF).items():
+                self.desugared[k_] = self.desugared.get(k_, 0) + v_
+        for fn, (path, src, tree) in parsed.items():
             from .desugar import normalise
             from .inline import inline_module
             from .tables import KNOWN_FUNCS
@@ -160,7 +171,7 @@ class Repo:
                     if not isinstance(n, SUPPORTED_STMTS):
                         raise AnalysisError(
                             f"unsupported construct {k} at {m.rel}:{n.lineno}")
-                if isinstance(n, (ast.Yield, ast.YieldFrom, ast.Await)):
+                if isinstance(n, (ast.Yield, ast.YieldFrom, ast.Await, ast.NamedExpr)):
                     raise AnalysisError(
                         f"unsupported construct {type(n).__name__} at {m.rel}:{n.lineno}")
                 if isinstance(n, ast.Call) and isinstance(n.func, ast.Name) \
